@@ -36,6 +36,17 @@ def dec_jobs(tier, rnd):
     for k in (12, 32, 64):
         L = 3 + k + 1
         jobs.append((MOD, 'decompress_scen', dict(n=2, L=L, buf=[None] * 3 + [0] * k + [None], tag='n=2 long run in coeff 1, k=%d' % k, deadline_s=3000)))
+    # production degrees, counting effects: whatever the decoder accumulates per coefficient (flags, counters, offsets) has to survive
+    # 512 / 1024 rounds. All-negative-zero strings, and 256 negative zeros followed by valid zeros (a narrow counter wraps to 0 there);
+    # the last byte stays symbolic. Both must be rejected without a panic.
+    for n, L in ((512, 625), (1024, 1239)):
+        for name, bits in (('all coefficients negative zero', '100000001' * n),
+                           ('256 negative zeros, then zeros', '100000001' * 256 + '000000001' * (n - 256)),
+                           ('negative zero at every 2nd position', ('100000001' + '000000001') * (n // 2))):
+            bits = bits + '0' * (8 * L - len(bits))
+            buf = [int(bits[8 * i:8 * i + 8], 2) for i in range(L)]
+            buf[-1] = None
+            jobs.append((MOD, 'decompress_scen', dict(n=n, L=L, buf=buf, tag='n=%d L=%d %s' % (n, L, name), deadline_s=3000)))
     if tier == 'thorough':
         # production sizes: concrete valid prefix, symbolic tail (where the end-of-buffer special cases live)
         for n, L in ((512, 625), (1024, 1239)):
@@ -189,13 +200,21 @@ def run(rep, tier, what=('dec', 'comp')):
     jobs = []
     if 'dec' in what: jobs += dec_jobs(tier, rnd)
     if 'comp' in what: jobs += comp_jobs(tier)
-    results = run_jobs(jobs, workers=NCPU, order_seed=seed())
     hashes = {}
-    for job, r in zip(jobs, results):
+    # results are absorbed as they arrive; once a violation has been replayed natively the remaining scenarios are cancelled
+    results = run_jobs(jobs, workers=NCPU, order_seed=seed(), on_result=lambda job, r: handle(rep, job, r, hashes))
+    rep.extra.setdefault('mir_hashes', {}).update(hashes)
+    if rep.violations:
+        rep.inconclusive = [x for x in rep.inconclusive if 'translator validation' in x]
+    return results
+
+
+def handle(rep, job, r, hashes):
+    if True:
         if r.get('error'):
             rep.oblige(1, ok=False)
             rep.note_inconclusive('%s %s: %s' % (job[1], job[2].get('tag'), r['error']))
-            continue
+            return False
         hashes.update(r.get('mir_hash', {}))
         rep.states += r['paths']; rep.transitions += r['steps']; rep.queries += r['queries']; rep.solver_s += r['solver_s']
         rep.oblige(r['obligations'] - r['violable']); rep.oblige(r['violable'], ok=False)
@@ -214,8 +233,7 @@ def run(rep, tier, what=('dec', 'comp')):
             confirm_noncanon(rep, nc)
         for b in r.get('bad', []):
             confirm_compress_bad(rep, b)
-    rep.extra['mir_hashes'] = hashes
-    return results
+    return bool(rep.violations)
 
 
 def check(tier):
